@@ -269,13 +269,20 @@ def cancel(rng):
     if rng.chance(1, 2):
         g.emit("yield %d" % rng.range(1, 4))
     k = rng.range(0, 8)
+    big = False
     op = rng.weighted([("csub", 6), ("dsub", 2), ("pub", 3), ("pull", 3), ("ack", 1), ("mod", 1), ("dtopic", 1), ("gsub", 1)])
     if op == "csub":
         g.emit("drop%d csub %s %s 10 -" % (k, hx(s_new), hx(t)))
     elif op == "dsub":
         g.emit("drop%d dsub %s" % (k, hx(s)))
     elif op == "pub":
-        g.emit("drop%d pub %s %s" % (k, hx(t), _payload(rng, "v")))
+        if rng.chance(1, 3):
+            # a big request: whatever the server does with it internally, it is one Publish
+            big = True
+            base = rng.below(10 ** 6)
+            g.emit("drop%d pub %s %s" % (k, hx(t), jl(hx("v%d-%d" % (base, i)) for i in range(rng.choice([1001, 1500, 2500])))))
+        else:
+            g.emit("drop%d pub %s %s" % (k, hx(t), _payload(rng, "v")))
     elif op == "pull":
         g.emit("drop%d pull %s 5 %d" % (k, hx(s), rng.choice([0, 1])))
     elif op == "ack":
@@ -293,9 +300,11 @@ def cancel(rng):
     g.emit("wsubs %s 1000" % hx(b"projects/p"))
     g.emit("wtsubs %s 1000" % hx(t))
     g.emit("pub %s %s" % (hx(t), _payload(rng, "probe")))
-    g.emit("pull %s 1000 1" % hx(s_new))
-    g.emit("pull %s 1000 1" % hx(s))
-    g.emit("pull %s 1000 1" % hx(s_other))
+    for _ in range(4 if big else 1):
+        # (a big backlog takes several pulls of at most 1000 before the probe message comes out)
+        g.emit("pull %s 1000 1" % hx(s_new))
+        g.emit("pull %s 1000 1" % hx(s))
+        g.emit("pull %s 1000 1" % hx(s_other))
     g.emit("stats " + hx(s))
     g.emit("# drain")
     g.emit("adv 711000000")
@@ -575,7 +584,7 @@ def abandonpull(rng):
     g.setup(1, 1, dls=(dl,))
     s = sorted(g.subs)[0]
     t = g.topics[0]
-    g.emit("pub %s %s" % (hx(t), jl(_payload(rng, "a") for _ in range(rng.range(1, 3)))))
+    g.emit("pub %s %s" % (hx(t), jl(_payload(rng, "a") for _ in range(rng.choice([1, 2, 3, 6, 8])))))
     n_fill = rng.choice([0, 0, 2, 20])
     for i in range(n_fill):
         g.emit("task f%d" % i)
@@ -587,7 +596,7 @@ def abandonpull(rng):
     g.emit("go")
     gap = rng.choice([1000000, 4000000, 7000000, 9500000])
     g.emit("adv %d" % gap)
-    g.emit("pull %s 1000 1" % hx(s))
+    g.emit("pull %s %d 1" % (hx(s), rng.choice([1000, 1000, 1, 2])))
     # just after the abandoned delivery's deadline, well before the second one's
     g.emit("adv %d" % (dl * 1000000 - gap + rng.choice([150000, 300000, 900000])))
     g.emit("pull %s 1000 1" % hx(s))
@@ -597,7 +606,68 @@ def abandonpull(rng):
     g.epilogue()
     return g.lines
 
-PROFILES = {"abandonpull": abandonpull, "pulllimit": pulllimit, "multicreate": multicreate, "wakecancel": wakecancel, "pubdel": pubdel, "namerace": namerace, "race": race, "swallow": swallow, "mix": mix, "wake": wake, "delete": delete, "burst": burst, "cancel": cancel}
+
+def limitwake(rng):
+    """C06 at the edge of the server-side wait limit: a lease runs out in the very tick in which a
+    blocking Pull's 5-minute limit ends, with another consumer queued behind that Pull."""
+    g = ConcGen(rng, caps=(2, 16))
+    g.lines[0] = "new cap=%d yield=%d" % (rng.choice([2, 16]), rng.range(0, 2 ** 32) if rng.chance(1, 2) else 0)
+    g.setup(1, 1, dls=(300,))
+    s = sorted(g.subs)[0]
+    t = g.topics[0]
+    g.emit("pub %s %s" % (hx(t), _payload(rng, "edge")))
+    g.emit("pull %s 1 1" % hx(s))                      # leased for 300 s from this instant
+    off = rng.choice([0, 0, 0, 1000, 100000])
+    order = ["limit", "behind"] if rng.chance(3, 4) else ["behind", "limit"]
+    k = 1
+    for name in order:
+        g.emit("task " + name)
+        if name == "limit":
+            if off:
+                g.emit("sleep %d" % off)
+            g.emit("pull %s 1 0" % hx(s))              # its wait limit ends when (or just after) the lease does
+        elif rng.chance(1, 2):
+            g.emit("sopen %d %s 10 0" % (k, hx(s)))
+            g.emit("sleep 330000000")
+            g.emit("sread %d" % k)
+            g.emit("sdrop %d" % k)
+        else:
+            g.emit("sleep 1000")
+            g.emit("pull %s 1 0" % hx(s))
+    g.emit("task probe")
+    g.emit("sleep 300500000")
+    g.emit("probe " + hx(s))
+    g.emit("sleep 10000000")
+    g.emit("probe " + hx(s))
+    g.emit("go")
+    g.epilogue()
+    return g.lines
+
+
+def bigpub(rng):
+    """C08: one Publish request with more than 1000 messages racing small publishes to the same topic:
+    ids in accept order, every request's messages contiguous, first deliveries in that order."""
+    g = ConcGen(rng, caps=(1, 2, 16))
+    g.setup(1, 1, dls=(10,))
+    s = sorted(g.subs)[0]
+    t = g.topics[0]
+    n_big = rng.choice([1001, 1500, 2500])
+    base = rng.below(10 ** 6)
+    g.emit("task big")
+    if rng.chance(1, 2):
+        g.emit("yield %d" % rng.range(0, 3))
+    g.emit("pub %s %s" % (hx(t), jl(hx("b%d-%d" % (base, i)) for i in range(n_big))))
+    for i in range(rng.range(1, 3)):
+        g.emit("task small%d" % i)
+        g.emit("yield %d" % rng.range(0, 6))
+        g.emit("pub %s %s" % (hx(t), jl(_payload(rng, "s%d" % i) for _ in range(rng.choice([1, 1, 2])))))
+    g.emit("go")
+    for _ in range(n_big // 1000 + 2):
+        g.emit("pull %s 1000 1" % hx(s))
+    g.emit("stats " + hx(s))
+    return g.lines
+
+PROFILES = {"bigpub": bigpub, "limitwake": limitwake, "abandonpull": abandonpull, "pulllimit": pulllimit, "multicreate": multicreate, "wakecancel": wakecancel, "pubdel": pubdel, "namerace": namerace, "race": race, "swallow": swallow, "mix": mix, "wake": wake, "delete": delete, "burst": burst, "cancel": cancel}
 
 
 def cases(rng, profile, n):
